@@ -235,6 +235,18 @@ def run_shard(prop, tier, seed, shard, nshards, on_ctx=None):
         except OSError:
             return None
     fd0 = nfds()
+    if shard % 2 == 1:
+        # every second shard runs with the process's logging turned up to DEBUG (a development server, a support session): records
+        # are formatted and thrown away; what the library logs must not change what it does
+        import logging
+
+        class _Discard(logging.Handler):
+            def emit(self, record):
+                self.format(record)
+        logging.getLogger().addHandler(_Discard())
+        logging.getLogger().setLevel(logging.DEBUG)
+        logging.getLogger("asyncio").setLevel(logging.WARNING)  # (the event loop's own debug chatter is not the library's)
+        ctx.extra["debug_logging_shards"] = 1
     try:
         check_repo_binding()
         mod.run(ctx)
